@@ -16,6 +16,11 @@ STEPS = ["subclass_plain", "subclass_override_pre_post", "subclass_own_invariant
          "posthoc_require_on_bare_property_override"]
 
 
+#: quick tier: with a SETATTR invariant on the root class only these kinds are tried as the FIRST step (all kinds as the second)
+QUICK_SETATTR_FIRST_STEPS = ("subclass_own_invariant", "class_with_mixin_own_invariant",
+                             "posthoc_require_on_bare_property_override", "decorate_same_bare_again")
+
+
 class World:
     def __init__(self, a_on: int) -> None:
         self.truth = {}  # type: Dict[str, Any]
@@ -306,9 +311,11 @@ def harnesses(tier: str) -> List[H]:
     nsteps = 2
     for a_on in (range(2) if tier == "quick" else range(3)):
         for k0 in range(len(STEPS)):
-            params = [I("j0", 0, 0), I("c0", 0, 2)]
+            if tier == "quick" and a_on == 1 and STEPS[k0] not in QUICK_SETATTR_FIRST_STEPS:
+                continue
+            params = [I("j0", 0, 0), I("c0", 0, 1 if tier == "quick" else 2)]
             for i in range(1, nsteps):
-                # quick tier: the later steps choose between CALL and SETATTR only (ALL is in the thorough tier)
+                # quick tier: the steps choose between CALL and SETATTR only (ALL is in the thorough tier)
                 params += [I("k%d" % i, 0, len(STEPS) - 1), I("j%d" % i, 0, i), I("c%d" % i, 0, 1 if tier == "quick" else 2)]
             params += [B("ta_inv"), B("ts_inv")]
             defaults = {"a_on": a_on, "nsteps": nsteps, "k0": k0, "ta_pre": True, "ta_post": True, "tf_pre": True,
